@@ -21,10 +21,10 @@ Granularity: one label per atomic action of the code —
 * `release`      the wrapped sink's `Drop` runs: the worker thread has exited, no handle is left and
                  the stopper has finished `stop()` (it holds an `Arc<Worker>` until then)
 
-crossbeam's channel is a linearizable FIFO with atomic try_send / recv (trusted).  (For capacity 0 the
-code's worker polls the stop flag with `recv_timeout`, repair cea8c71; that loop is not modelled.)  A zero-capacity
-(rendezvous) channel has different try_send semantics and is outside the model: liveness theorems
-carry `cap ≠ some 0`.
+crossbeam's channel is a linearizable FIFO with atomic try_send / recv (trusted).  A zero-capacity
+(rendezvous) channel has different try_send semantics and is outside *this* LTS: liveness theorems
+carry `cap ≠ some 0`.  Capacity 0, with the worker's polling loop (`recv_timeout`, repair cea8c71), is
+modelled in `Cadence/Model/Queue0.lean`.
 -/
 namespace Queue
 
